@@ -43,6 +43,9 @@ PURE_BUILTINS = {
     'isinstance', 'issubclass', 'hasattr', 'id', 'hash', 'callable', 'any',
     'all', 'sum', 'reversed', 'iter', 'map', 'filter', 'divmod', 'round',
     'object', 'memoryview', 'slice', 'vars', 'dir'}
+NOT_NONE = ('obj', 'tuple', 'list', 'dict', 'set', 'fn', 'cls', 'partial',
+            'methodcaller', 'attrgetter', 'itemgetter', 'ntcls', 'nt', 'ext',
+            'mod', 'gen')
 BOOLEAN_OPS = {'==', '!=', 'is', 'isnot', 'in', 'notin', '<', '<=', '>', '>=',
                'not', 'isinstance', 'issubclass', 'hasattr', 'callable',
                'bool', 'truth', 'any', 'all'}
@@ -823,7 +826,8 @@ class PathSum(object):
                 return len(x[1]) > 0
             if x[0] == 'dict':
                 return len(x[1]) > 0
-            if x[0] in ('fn', 'cls', 'mod'):
+            if x[0] in ('fn', 'cls', 'mod', 'partial', 'methodcaller',
+                        'attrgetter', 'itemgetter', 'ntcls', 'ext', 'gen'):
                 return True
             if x[0] == 'obj' and x[3] is not None and not any(
                     self.db.find_attr(x[3], m) is not None
@@ -841,8 +845,7 @@ class PathSum(object):
                     return x[1] is y[1]
                 if a[1] == '==':
                     return x[1] == y[1]
-            if is_const(y) and y[1] is None and x[0] in (
-                    'obj', 'tuple', 'list', 'dict', 'set', 'fn', 'cls'):
+            if is_const(y) and y[1] is None and x[0] in NOT_NONE:
                 return False
             if struct(x) == struct(y) and x[0] not in ('call',):
                 return True
@@ -1720,11 +1723,21 @@ class PathSum(object):
             return None
         if isinstance(e, ast.Call) and isinstance(
                 e.func, (ast.Name, ast.Attribute)) and module is not None \
-                and len(e.args) >= 2 and not e.keywords:
+                and len(e.args) >= 1 and not e.keywords and not any(
+                    isinstance(a, ast.Starred) for a in e.args):
             try:
                 ent = self.db.resolve_dotted(module, e.func)
             except AnalysisError:
                 ent = None
+            if isinstance(ent, External) and ent.dotted in (
+                    'functools.partial', 'operator.methodcaller',
+                    'operator.attrgetter', 'operator.itemgetter'):
+                args = [self._literal(a, module, depth + 1) for a in e.args]
+                if any(a is None for a in args):
+                    return None
+                r = self.library_call(ent.dotted, ('ext', ent.dotted), args,
+                                      {}, St(), None, e)
+                return r[0][1] if r and len(r) == 1 else None
             if isinstance(ent, External) and ent.dotted == \
                     'collections.namedtuple':
                 nm = self._literal(e.args[0], module, depth + 1)
